@@ -770,7 +770,12 @@ func (e UnaryLogic) String() string {
 		s := []string{e.Operator.String(), e.Operand.String()}
 		return joinWithSpace(s)
 	}
-	return e.Operator.String() + e.Operand.String()
+	operand := e.Operand.String()
+	if 0 < len(operand) && operand[0] == '!' {
+		// "!!" is not an operator
+		return e.Operator.String() + " " + operand
+	}
+	return e.Operator.String() + operand
 }
 
 type Concat struct {
